@@ -51,7 +51,7 @@ def run(tier, seed, model_ok):
         if a.startswith('HEX2 '):
             fc, fe = a[5:].split(' ')
             lines.append('%d HEXCHECK %s %s' % (i, fc, vlib.hx(img)))
-            if len(img) <= 70000 or i % 3 == 0:      # the EEPROM file of the very large images: every third (the reader is slow)
+            if fe != '-':      # the EEPROM file of the very large images is reported for every third length only
                 lines.append('%de HEXCHECK %s %s' % (i, fe, vlib.hx(bytes(b ^ 0x5a for b in img))))
         else:
             vio.append({'what': 'writer did not produce one and the same file for code and eeprom / failed', 'image_length': len(img), 'impl': a[:100], 'expected': 'HEX file', 'key': 'write'})
